@@ -1,0 +1,70 @@
+//go:build verif
+
+package rsm
+
+import (
+	sm "github.com/lni/dragonboat/v4/statemachine"
+)
+
+// White-box observation for the C08 verification harness. Compiled only with
+// -tags verif; read-only.
+
+// VerifC08Session is a deep copy of one entry of the client session table.
+type VerifC08Session struct {
+	History       map[uint64]sm.Result
+	ClientID      uint64
+	RespondedUpTo uint64
+}
+
+// VerifC08View is what the harness compares between replicas and with the model.
+type VerifC08View struct {
+	Sessions        []VerifC08Session // most recently used first
+	SessionCap      uint64
+	Index           uint64
+	Term            uint64
+	LastIndex       uint64
+	LastTerm        uint64
+	OnDiskInitIndex uint64
+	OnDiskIndex     uint64
+	SnapshotIndex   uint64
+}
+
+// VerifC08View reads the applied position, the on-disk indexes and the session
+// table (walking the LRU list without calling Get, so the order is untouched).
+func (s *StateMachine) VerifC08View() VerifC08View {
+	s.mu.RLock()
+	defer s.mu.RUnlock()
+	v := VerifC08View{
+		Index:           s.index,
+		Term:            s.term,
+		OnDiskInitIndex: s.onDiskInitIndex,
+		OnDiskIndex:     s.onDiskIndex,
+		SnapshotIndex:   s.snapshotIndex,
+	}
+	s.lastApplied.Lock()
+	v.LastIndex, v.LastTerm = s.lastApplied.index, s.lastApplied.term
+	s.lastApplied.Unlock()
+	rec := s.sessions.lru
+	rec.Lock()
+	defer rec.Unlock()
+	v.SessionCap = rec.size
+	out := make([]VerifC08Session, 0)
+	rec.sessions.OrderedDo(func(k, val interface{}) {
+		ses := val.(*Session)
+		c := VerifC08Session{
+			ClientID:      uint64(ses.ClientID),
+			RespondedUpTo: uint64(ses.RespondedUpTo),
+			History:       make(map[uint64]sm.Result),
+		}
+		for sid, r := range ses.History {
+			c.History[uint64(sid)] = sm.Result{Value: r.Value, Data: append([]byte(nil), r.Data...)}
+		}
+		out = append(out, c)
+	})
+	// OrderedDo goes from the back (least recently used) to the front
+	for i, j := 0, len(out)-1; i < j; i, j = i+1, j-1 {
+		out[i], out[j] = out[j], out[i]
+	}
+	v.Sessions = out
+	return v
+}
